@@ -75,12 +75,16 @@ def st_map_case(draw):
         ch = list(draw(st.permutations(pool)))[:n]
         for k in range(n - 1):
             mp[ch[k]] = ch[k + 1]
+        if draw(st.booleans()):
+            mp[ch[-1]] = ch[-1]     # chain ending in an identity entry
     elif shape == "merge":
         n = draw(st.integers(2, min(4, len(pool))))
         src = list(draw(st.permutations(pool)))[:n]
         tgt = draw(st.sampled_from(pool))
         for s_ in src:
             mp[s_] = tgt
+        if draw(st.booleans()):
+            mp[tgt] = tgt
     elif shape == "perm":
         perm = list(draw(st.permutations(labels)))
         mp = dict(zip(labels, perm))
@@ -172,6 +176,8 @@ def run_map(case, r):
     shp = map_shape(mp_l)
     r.nontrivial = bool(shp) and raw != exp
     r.cls("map", *[f"map_{s_}" for s_ in shp])
+    if any(k == v for k, v in mp_l.items()):
+        r.cls("map_with_identity_entry")
 
 
 # ------------------------------------------------------ (b) permutations
